@@ -320,6 +320,15 @@ class Winnow:
             return [(b_and(*s.pc[n0:]), v) for s, v in outs]
         if isinstance(set_, StrSlice):
             return [(True, b_or(*[chr_eq(tok, c) for c in set_.chars()]))]
+        if isinstance(set_, SliceV):
+            # [char; N] / &[char]
+            acc = False
+            for x in set_.elems():
+                r = self.contains(x, tok, st)
+                if len(r) != 1:
+                    raise _interp.Unsupported("nested contains fork")
+                acc = b_or(acc, r[0][1])
+            return [(True, acc)]
         raise _interp.Unsupported("token set %r" % (set_,))
 
     def pred_guard(self, set_, tok, st):
@@ -385,6 +394,29 @@ class Winnow:
     def p_take_while(self, s, st, rng, set_):
         m, n = rng
         return self.take_while(s, st, m, n, lambda t: self.pred_guard(set_, t, st))
+
+    def p_take_till(self, s, st, rng, set_):
+        m, n = rng
+        return self.take_while(s, st, m, n, lambda t: b_not(self.pred_guard(set_, t, st)))
+
+    def p_take(self, s, st, count):
+        """token::take(count): exactly `count` tokens (characters of a &str), Backtrack when fewer remain"""
+        from .stdmodel import ByteLen
+        res = []
+        L = len(s)
+        for g0, c in alts_of(count):
+            if isinstance(c, ByteLen):
+                c = c.term()
+            if isinstance(c, int):
+                if c <= L:
+                    res.append((g0, ok(self.s_take(s, c), self.s_from(s, c))))
+                else:
+                    res.append((g0, err("Backtrack", EMPTY_CTX, s)))
+                continue
+            for e in range(L + 1):
+                res.append((b_and(g0, c == z3.BitVecVal(e, c.size())), ok(self.s_take(s, e), self.s_from(s, e))))
+            res.append((b_and(g0, z3.UGT(c, z3.BitVecVal(L, c.size()))), err("Backtrack", EMPTY_CTX, s)))
+        return res
 
     def p_take_until(self, s, st, rng, needle):
         m, n = rng
@@ -731,6 +763,8 @@ def register(I):
     R["token::literal"] = ctor("literal")
     R["token::one_of"] = ctor("one_of")
     R["token::take_while"] = ctor("take_while", pick=lambda a, i: (rng_of(a[0]), a[1]))
+    R["token::take_till"] = ctor("take_till", pick=lambda a, i: (rng_of(a[0]), a[1]))
+    R["token::take"] = ctor("take", pick=lambda a, i: (a[0],))
     R["token::take_until"] = ctor("take_until", pick=lambda a, i: (rng_of(a[0]), a[1]))
     R["take_until"] = R["token::take_until"]
     R["::take_until"] = R["token::take_until"]
